@@ -68,6 +68,7 @@ def cases(ctx):
             # harvester farmers) by a number of batches that does not divide the number of cases (5 cases in 3 batches)
             nb = 3 if (idx % 3 == 2 or (victim in ("sow", "resow") and farmer in ("raw", "harvester"))) else None
             yield {"farmer": farmer, "victim": victim, "n": 5, "bs": 2, "nb": nb, "shuffle": [False, True][idx % 2],
+                   "engine": "joblib" if (farmer == "harvester" and victim in ("reap", "grow_missing", "resow")) else None,
                    "grown": [1] if victim.startswith("grow") else [], "idx": idx, "depth2": 0, "part": [part, P]}
         idx += 1
     for farmer, victim in base:
@@ -97,6 +98,7 @@ def cases(ctx):
                 nb = B if rng.random() < 0.35 else None
                 for part in range(2):
                     yield {"farmer": farmer, "victim": victim, "n": n, "bs": bs, "nb": nb, "shuffle": sh,
+                           "engine": "joblib" if (farmer == "harvester" and rep % 2) else None,
                            "grown": grown, "idx": idx, "depth2": 3 if rep < 3 else 0, "part": [part, 2]}
                 idx += 1
 
@@ -122,6 +124,8 @@ def _mk(case, root):
     r = xyzpy.Runner(fn, ["y", "z"], var_dims={"z": "t"}, var_coords={"t": T_VALS})
     if farmer == "runner":
         return fn, r
+    if case.get("engine") == "joblib":
+        return fn, xyzpy.Harvester(r, data_name=os.path.join(root, "harvest.dmp"), engine="joblib")
     return fn, xyzpy.Harvester(r, data_name=os.path.join(root, "harvest.h5"))
 
 
@@ -236,11 +240,13 @@ def _harvester_file_has(root, avals, engine="h5netcdf"):
     """None if the harvester's file is loadable and holds exact data at every a in avals."""
     import xyzpy
     p = os.path.join(root, "harvest.h5")
+    if engine == "joblib":
+        p = os.path.join(root, "harvest.dmp")
     if not os.path.exists(p):
         return "the harvester's data file does not exist"
     try:
         with quiet():
-            ds = xyzpy.load_ds(p)
+            ds = xyzpy.load_ds(p, engine=engine)
     except Exception as e:
         return "the harvester's data file cannot be loaded: %r" % (e,)
     kind = _pkind("harvester")
@@ -264,7 +270,7 @@ def _naive(case, root):
         return ("raised", type(e).__name__)
     d = _judge_value(case, res, sampled)
     if d is None and case["farmer"] == "harvester":
-        d = _harvester_file_has(root, [100, 101] + list(range(1, case["n"] + 1)))
+        d = _harvester_file_has(root, [100, 101] + list(range(1, case["n"] + 1)), case.get("engine") or "h5netcdf")
     return ("exact", None) if d is None else ("wrong", d)
 
 
@@ -325,7 +331,7 @@ def _recover(case, root):
         return ("raised", "%s: %s | %s" % (type(e).__name__, str(e)[:200], traceback.format_exc(limit=-3)[-600:]))
     d = _judge_value(case, res, sampled)
     if d is None and case["farmer"] == "harvester":
-        d = _harvester_file_has(root, [100, 101] + list(range(1, case["n"] + 1)))
+        d = _harvester_file_has(root, [100, 101] + list(range(1, case["n"] + 1)), case.get("engine") or "h5netcdf")
     if d is None and os.path.exists(cropkit.crop_dir(root, NAME)):
         d = "crop directory still exists after the recovered reap"
     return ("exact", None) if d is None else ("wrong", d)
@@ -412,7 +418,7 @@ def run_strace_case(ctx, case):
         state = crash.snap(root)
         bad = []
         if case["farmer"] == "harvester":
-            st3, d3 = crash.run_forked(lambda: _harvester_file_has(root, [100, 101]))
+            st3, d3 = crash.run_forked(lambda: _harvester_file_has(root, [100, 101], case.get("engine") or "h5netcdf"))
             ctx.count("harvester_file_checked")
             if st3 != "ok" or d3 is not None:
                 bad.append(("harvester-data-survives", "after SIGKILL at %s #%d on the data file: %s" % (name, k, d3 if st3 == "ok" else (st3, d3))))
@@ -471,7 +477,7 @@ def run_case(ctx, case):
         bad = []
         # (3) harvester data survives the crash itself
         if case["farmer"] == "harvester":
-            st3, d3 = crash.run_forked(lambda: _harvester_file_has(root, [100, 101]))
+            st3, d3 = crash.run_forked(lambda: _harvester_file_has(root, [100, 101], case.get("engine") or "h5netcdf"))
             ctx.count("harvester_file_checked")
             if st3 != "ok" or d3 is not None:
                 bad.append(("harvester-data-survives", "after a kill before %s: %s" % (evname, d3 if st3 == "ok" else (st3, d3))))
